@@ -284,11 +284,22 @@ def assign (next : Nat) : List Item → List Chunk × List (Nat × Nat) × Nat
 
 def findChunk (sent : List Chunk) (t : Nat) : Option Chunk := sent.find? (fun c => c.tsn == t)
 
-/-- a DATA packet carrying the chunks with these TSNs (all sent before) -/
-def mkData (sent : List Chunk) (tsns : List Nat) : Option Msg :=
-  (tsns.mapM (findChunk sent)).map Msg.data
+def findAll (sent : List Chunk) : List Nat → Option (List Chunk)
+  | [] => some []
+  | t :: rest =>
+    match findChunk sent t, findAll sent rest with
+    | some c, some cs => some (c :: cs)
+    | _, _ => none
 
-def mkDatas (sent : List Chunk) (pkts : List (List Nat)) : Option (List Msg) := pkts.mapM (mkData sent)
+/-- a DATA packet carrying the chunks with these TSNs (all sent before) -/
+def mkData (sent : List Chunk) (tsns : List Nat) : Option Msg := (findAll sent tsns).map Msg.data
+
+def mkDatas (sent : List Chunk) : List (List Nat) → Option (List Msg)
+  | [] => some []
+  | p :: rest =>
+    match mkData sent p, mkDatas sent rest with
+    | some m, some ms => some (m :: ms)
+    | _, _ => none
 
 def reqOf (r : Nat × Nat × List Nat) : Msg := .req r.1 r.2.1 r.2.2
 
